@@ -9,12 +9,18 @@
 EXTENDS Naturals, Integers, Sequences, FiniteSets, TLC, Json, IOUtils
 
 Rec == ndJsonDeserialize(IOEnv.TRACE)
-VARIABLES l, scn, start, req, hstart, abandoned, bad04, bad07, bad18
-tvars == <<l, scn, start, req, hstart, abandoned, bad04, bad07, bad18>>
+VARIABLES l, scn, start, req, hstart, abandoned, bad04, bad07, bad18, sub
+tvars == <<l, scn, start, req, hstart, abandoned, bad04, bad07, bad18, sub>>
 NoStart == [dl |-> 0, tr |-> "", span |-> "", sampled |-> FALSE, delays |-> <<>>]
 TInit == l = 1 /\ scn = 0 /\ start = NoStart /\ req = <<>> /\ hstart = <<>> /\ abandoned = FALSE
-         /\ bad04 = {} /\ bad07 = {} /\ bad18 = {}
+         /\ bad04 = {} /\ bad07 = {} /\ bad18 = {} /\ sub = "none"
+(* sub: the tracing subscriber of the process.  Under an OpenTelemetry layer ("otel") trace contexts travel in spans: a call *)
+(* takes its trace id and sampling decision from the span it is made in (the head call is made in a span whose remote parent  *)
+(* is the caller's context, a nested call in its handler's span) and gets a fresh span of its own, and `context::current()`   *)
+(* inside a handler must report the handler's deadline and trace context.                                                     *)
 
+(* the server side runs under an OpenTelemetry layer *)
+Traced == sub \in {"otel", "otel-server"}
 RECURSIVE SumTo(_, _)
 SumTo(s, k) == IF k = 0 THEN 0 ELSE s[k] + SumTo(s, k - 1)
 
@@ -23,6 +29,7 @@ Step ==
   /\ l' = l + 1
   /\ LET e == Rec[l] IN
      /\ scn' = e.scn
+     /\ sub' = IF e.ev = "Reset" /\ "sub" \in DOMAIN e THEN e.sub ELSE sub
      /\ CASE e.ev = "Reset" -> start' = NoStart /\ req' = <<>> /\ hstart' = <<>> /\ abandoned' = FALSE
                                /\ bad04' = {} /\ bad07' = {} /\ bad18' = {}
           [] e.ev = "ChainStart" ->
@@ -34,7 +41,9 @@ Step ==
                     \cup (IF e.k = 1 /\ ~(e.item.tr = start.tr /\ e.item.sampled = start.sampled /\ e.item.span # start.span)
                             THEN {"head request does not carry the caller's trace id / sampling with a fresh span"} ELSE {})
                     \cup (IF e.k > 1 /\ (e.k - 1) \in DOMAIN hstart
-                              /\ ~(e.item.tr = hstart[e.k - 1].tr /\ e.item.sampled = hstart[e.k - 1].sampled /\ e.item.span # hstart[e.k - 1].span)
+                              /\ ~(e.item.tr = hstart[e.k - 1].tr /\ e.item.sampled = hstart[e.k - 1].sampled
+                                    \* (an invalid trace, id 0, gets no span ids of its own from an OpenTelemetry tracer)
+                                    /\ (e.item.span # hstart[e.k - 1].span \/ (Traced /\ hstart[e.k - 1].tr = "0")))
                             THEN {"nested request does not carry the handler's trace id / sampling with a fresh span"} ELSE {})
                /\ bad07' = IF e.k > 1 /\ (e.k - 1) \in DOMAIN hstart /\ e.item.rel # hstart[e.k - 1].rel
                              THEN bad07 \cup {"nested call does not carry the handler's deadline"} ELSE bad07
@@ -46,12 +55,22 @@ Step ==
                /\ UNCHANGED <<start, req, hstart, abandoned, bad04, bad07>>
           [] e.ev = "ChainHandlerStart" ->
                /\ hstart' = (e.k :> [dl |-> e.dl, rel |-> e.rel, tr |-> e.tr, span |-> e.span, sampled |-> e.sampled]) @@ hstart
-               /\ bad18' = IF e.k \in DOMAIN req /\ ~(e.tr = req[e.k].tr /\ e.sampled = req[e.k].sampled /\ e.span # req[e.k].span)
-                             THEN bad18 \cup {"handler does not observe the request's trace id / sampling with a fresh span"} ELSE bad18
+               /\ bad18' = bad18
+                    \* a request without a trace (trace id 0: an untraced caller) starts a new trace at a traced server
+                    \cup (IF e.k \in DOMAIN req /\ ~(Traced /\ req[e.k].tr = "0")
+                              /\ ~(e.tr = req[e.k].tr /\ e.sampled = req[e.k].sampled /\ e.span # req[e.k].span)
+                            THEN {"handler does not observe the request's trace id / sampling with a fresh span"} ELSE {})
+                    \cup (IF \E j \in DOMAIN hstart : j # e.k /\ hstart[j].span = e.span
+                            THEN {"two hops share a span id"} ELSE {})
+                    \cup (IF Traced /\ "cur" \in DOMAIN e /\ ~(e.cur.tr = e.tr /\ e.cur.sampled = e.sampled)
+                            THEN {"context::current() inside the handler does not report the handler's trace context"} ELSE {})
                \* deadlines are compared relative to the head call's deadline (rel = deadline - head deadline, in ms):
                \* deadlines years away do not fit the specification's integers
-               /\ bad07' = IF e.rel >= 0 /\ e.rel <= SumTo(start.delays, e.k) THEN bad07
-                           ELSE bad07 \cup {"handler's deadline is earlier than the caller's or later than it plus accumulated transit"}
+               /\ bad07' = bad07
+                    \cup (IF e.rel >= 0 /\ e.rel <= SumTo(start.delays, e.k) THEN {}
+                          ELSE {"handler's deadline is earlier than the caller's or later than it plus accumulated transit"})
+                    \cup (IF Traced /\ "cur" \in DOMAIN e /\ e.cur.rel # e.rel
+                            THEN {"context::current() inside the handler does not report the handler's deadline"} ELSE {})
                /\ UNCHANGED <<start, req, abandoned, bad04>>
           [] e.ev = "ChainAbandon" -> abandoned' = TRUE /\ UNCHANGED <<start, req, hstart, bad04, bad07, bad18>>
           [] e.ev = "ChainDrained" ->
